@@ -112,7 +112,7 @@ def referenced_namespaces(obj, schema, acc):
             referenced_namespaces(v, schema, acc)
 
 
-def render_schema(schema, roots=(), route_ns=None, annotations=None, patched=None, extra_refs=()):
+def render_schema(schema, roots=(), route_ns=None, annotations=None, patched=None, extra_refs=(), examples=None):
     """schema: name -> def.  Returns list of (filename, text), one file per namespace.
 
     roots: type expressions; each becomes `route probe<i>(T, Void, Void)` in route_ns so that
@@ -188,6 +188,7 @@ def render_schema(schema, roots=(), route_ns=None, annotations=None, patched=Non
                 if not body:
                     body.append('    "no fields"')
                 lines += body
+                lines += render_examples((examples or {}).get(n))
             elif d['k'] == 'union':
                 hdr = ('union_closed ' if d['closed'] else 'union ') + n
                 if d['parent']:
@@ -207,6 +208,7 @@ def render_schema(schema, roots=(), route_ns=None, annotations=None, patched=Non
                 if not body:
                     body.append('    "no tags"')
                 lines += body
+                lines += render_examples((examples or {}).get(n))
             lines.append('')
         if ns == route_ns:
             for i, r in enumerate(roots):
@@ -282,3 +284,32 @@ class Generated:
         except ValueError:
             pass
         shutil.rmtree(self.tmp, ignore_errors=True)
+
+
+def render_exval(x):
+    k = x['k']
+    if k == 'null':
+        return 'null'
+    if k == 'ref':
+        return x['label']
+    if k == 'list':
+        return '[%s]' % ', '.join(render_exval(i) for i in (x['items'] if isinstance(x['items'], list) else []))
+    if k == 'map':
+        m = x['m'] if isinstance(x['m'], dict) else {}
+        return '{%s}' % ', '.join('"%s": %s' % (key, render_exval(v)) for key, v in m.items())
+    v = x['v']
+    if v['k'] == 'ts':
+        import datetime
+        vals = [datetime.datetime(2015, 5, 12, 15, 50, 38), datetime.datetime(1999, 12, 31, 23, 59, 59)]
+        return '"%s"' % vals[v['id']].strftime(TS_FORMATS['f1'])
+    return render_literal(v)
+
+
+def render_examples(exs):
+    out = []
+    for e in (exs if isinstance(exs, list) else []):
+        out.append('    example %s' % e['label'])
+        assigns = e['assigns'] if isinstance(e['assigns'], dict) else {}
+        for fn, x in assigns.items():
+            out.append('        %s = %s' % (fn, render_exval(x)))
+    return out
